@@ -157,21 +157,40 @@ let run_e2e_file c =
     (match build_options cfg with
      | (Err _ | Panic _) as r -> Printf.sprintf "{\"end\":\"options:%s\"}" (res_tag r)
      | Ok o ->
+       (* the other two front-ends on the same input: bytes (both byte orders) and per-channel slices *)
+       let nbytes = (bps + 7) / 8 in
+       let le_bytes v = List.init nbytes (fun i -> n_of_int ((v asr (8 * i)) land 255)) in
+       let enc = encB_x eo l (n_of_int rate) (n_of_int bps) in
+       let nframes = List.length expect / ch in
+       let other_front_ends () =
+         let run_bytes en conv =
+           let tot = if field cfg "declare_total" = JBool true then Some (n_of_int (List.length expect * nbytes)) else None in
+           match byte_new Release en [] o (n_of_int rate) (n_of_int bps) (n_of_int ch) tot with
+           | Ok w -> (match byte_run enc md5_real Release w [List.concat_map conv expect] with Ok f -> f.f_stream = bytes | _ -> false)
+           | _ -> false in
+         let run_channels () =
+           let tot = if field cfg "declare_total" = JBool true then Some (n_of_int nframes) else None in
+           let chans = List.init ch (fun ci -> List.filteri (fun i _ -> i mod ch = ci) (take (nframes * ch) expect) |> List.map z_of_int) in
+           match channel_new Release [] o (n_of_int rate) (n_of_int bps) (n_of_int ch) tot with
+           | Ok w -> (match channel_run enc md5_real Release w [chans] with Ok f -> f.f_stream = bytes | _ -> false)
+           | _ -> false in
+         (run_bytes LE le_bytes, run_bytes BE (fun v -> List.rev (le_bytes v)), run_channels ()) in
        match sample_new Release [] o (n_of_int rate) (n_of_int bps) (n_of_int ch) total with
        | (Err _ | Panic _) as r -> Printf.sprintf "{\"end\":\"new:%s\"}" (res_tag r)
        | Ok w ->
-         match sample_run (encB_x eo l (n_of_int rate) (n_of_int bps)) md5_real Release w [List.map z_of_int expect] with
+         match sample_run enc md5_real Release w [List.map z_of_int expect] with
          | (Err _ | Panic _) as r -> Printf.sprintf "{\"end\":\"run:%s\",\"complete_oracle\":%b}" (res_tag r) complete_oracle
          | Ok f ->
            let m = f.f_stream in
            let same = (m = bytes) in
+           let (ble, bbe, chn) = if same && List.length expect mod ch = 0 && List.length expect <= 3000 then other_front_ends () else (same, same, same) in
            let rec first i a b = match a, b with
              | x :: a', y :: b' -> if x = y then first (i + 1) a' b' else i
              | [], [] -> -1 | _ -> i in
            let k = if same then -1 else first 0 m bytes in
            let meta_len = List.length bytes - List.length audio in
-           Printf.sprintf "{\"end\":\"ok\",\"match\":%b,\"complete_oracle\":%b,\"lpc\":%b,\"model_len\":%d,\"file_len\":%d,\"meta_len\":%d,\"first_diff\":%d,\"model_at\":\"%s\",\"file_at\":\"%s\"}"
-             same complete_oracle lpc_on (List.length m) (List.length bytes) meta_len k
+           Printf.sprintf "{\"end\":\"ok\",\"match\":%b,\"match_bytes_le\":%b,\"match_bytes_be\":%b,\"match_channels\":%b,\"complete_oracle\":%b,\"lpc\":%b,\"model_len\":%d,\"file_len\":%d,\"meta_len\":%d,\"first_diff\":%d,\"model_at\":\"%s\",\"file_at\":\"%s\"}"
+             same ble bbe chn complete_oracle lpc_on (List.length m) (List.length bytes) meta_len k
              (if k < 0 then "" else hex_of_bytes (take 24 (List.filteri (fun i _ -> i >= k) m)))
              (if k < 0 then "" else hex_of_bytes (take 24 (List.filteri (fun i _ -> i >= k) bytes))))
 
